@@ -22,7 +22,7 @@ build ./...` succeeds, all 373 `stable_pass` tests pass, demo fails on the patch
 (scratch worktree carrying the patch, `VERIF_REPO`, private copy of `/verif`; `/repo` untouched). "First run"
 is the verdict of the property's own quick check as it stood when the change arrived; "strengthened" says
 what was changed when it was missed; the last column lists the quick checks (VERIF_SEED=1) that report it after strengthening: for ids without a
-suffix every one of the 20 checks was run, for the second wave (suffix b) the property's own check and its neighbours, for the third to eighth waves (suffixes c, d, e, f, g, h) the property's own check
+suffix every one of the 20 checks was run, for the second wave (suffix b) the property's own check and its neighbours, for the third to ninth waves (suffixes c, d, e, f, g, h, i) the property's own check
 (`seeded/RESULTS.json` records which).
 
 | seeded change | property | change | needs | first run | strengthened | caught by (quick, seed 1) |
